@@ -59,7 +59,7 @@ add('C16', 'l0a', 'Generated operation histories (set_locale, set_locale_untrack
 add('C17', 'l0dyn', 'Arbitrary Unicode string tables (quotes, backslashes, newlines, U+2028/9, </script>, <!--, NUL, astral) served by harness TranslationUnit types and a generated use history; the real registration path (RegisterCtx, provide_i18n_context_component, feature dynamic_load+ssr) is rendered with to_html(); the script must not break out, must parse as a JS literal, and must decode to exactly the used units with their strings in order.',
     'Trusted: the small JS-literal parser of the harness. The hydrate-side re-emission is wasm-only and not observed.',
     technique='property-based testing with a round-trip (embed -> parse -> decode) oracle')
-add('C18', 'l0b', 'Exhaustive: every formatter name x option combination x omitted / unknown / duplicated arguments x whitespace through Formatter::from_name_and_args, ParsedValue::new and t_format!; the full option matrix through the __private helpers and td_string!/td_format_string! for 8 locales against freshly built ICU4X formatters. Sampled: call histories of <=60 calls, optionally with 2-8 threads racing on first uses, each in a fresh process (the cache is process-global): results must not depend on history or thread.',
+add('C18', 'l0b', 'Exhaustive: every formatter name x option combination x omitted / unknown / duplicated arguments x whitespace through Formatter::from_name_and_args, ParsedValue::new and t_format!; the full option matrix through the __private helpers and td_string!/td_format_string! for 8 locales against freshly built ICU4X formatters. Sampled: call histories of <=60 calls, optionally with 2-8 threads racing on first uses, each in a fresh process (the cache is process-global): results must not depend on history or thread; histories on a live context (views made by t_format!/tu_format!/t!, set_locale, re-rendering): every kept view and every evaluate-now string macro must show the output for the current locale. Stage 2 (generated crates): generated projects whose variables and count variables carry formatters inside components, range branches, plural forms, referenced and defaulted keys, compiled with load_locales!() and observed through td_string!/td_display!/td!; expected = reference rendering with each formatted variable replaced by fresh ICU4X output for the rendered locale (computed in the generated binary by the independent vref crate).',
     'Interleavings are sampled, not controlled. `list_length` (book) vs `list_style` (code) is not asserted. Duplicated arguments: first recognised occurrence wins (as implemented). time_length full/long panic: known finding D23.',
     technique='exhaustive enumeration + differential property-based testing against fresh ICU4X formatters; stateful histories')
 add('C19', 'l1', 'Generated Cargo.toml manifests (preamble / trailing sections, field orders, spellings, duplicates, bad inherits, missing fields) and directory layouts (decoys, missing files); ConfigFile fields, files read and errors from parse_locales_raw are compared with a three-valued model (must-accept / must-reject / unspecified).',
@@ -69,7 +69,7 @@ add('C20', 'l1', 'Generated projects where plurals and each formatter family occ
 
 ENGINES = [
     dict(name='l1', path='engine/l1 (+ l1y, l1j5: same sources built for yaml / json5)', kind_free_text='in-process parser / code-generator / build-helper harness driven by proptest choice tapes; sources of the proc-macro crate compiled in via #[path]'),
-    dict(name='l2', path='engine/l2', kind_free_text='generated-crate tier: projects generated from choice tapes are emitted as cargo packages calling the real macros, compiled in one workspace, run, and their printed observations compared with the reference semantics (second stage of C01 C03 C04 C05 C06)'),
+    dict(name='l2', path='engine/l2', kind_free_text='generated-crate tier: projects generated from choice tapes are emitted as cargo packages calling the real macros, compiled in one workspace, run, and their printed observations compared with the reference semantics (second stage of C01 C03 C04 C05 C06 C07 C08 C11 C18; sole engine of C02 C13); engine/vref is the independent ICU4X reference crate the C18 packages link'),
     dict(name='l0b', path='engine/l0b', kind_free_text='native run-time harness: router path helpers (hooks), I18nRoute, formatter parsing and run-time formatting'),
     dict(name='l0dyn', path='engine/l0dyn', kind_free_text='native run-time harness built with dynamic_load+ssr: server-embedded translations'),
     dict(name='l0a', path='engine/l0a', kind_free_text='native (ssr) run-time harness: locale negotiation, context initialisation, context histories'),
